@@ -3,7 +3,7 @@ use crate::gen;
 use crate::util::*;
 use engeom::common::{DiscreteDomain, DistMode};
 use engeom::geom3::{Mesh, Point3, PointCloud, PointCloudFeatures, UnitVec3, Vector3};
-use engeom::metrology::line_profiles::point_curve2_deviation;
+use engeom::metrology::line_profiles::{line_surface_deviations, point_curve2_deviation};
 use engeom::metrology::{
     DiscreteDomainTolMap, Distance3, Measurement, SurfaceDeviation2, SurfaceDeviationSet2, Tolerance, ToleranceMap,
 };
@@ -47,6 +47,47 @@ fn dev_curve(rng: &mut Rng) {
         o.f(dev.surface.normal.x).f(dev.surface.normal.y).f(dev.deviation);
         emit("dev.curve", &i, &o, &v);
     }
+}
+
+/// The batch form over a measured profile: `line_surface_deviations` holds, in order, the deviation of every measured
+/// point whose closest station lies in the given interval of arc length (all of them without an interval) — each
+/// equal to `point_curve2_deviation` of that point — and its extremes are those of what it holds.
+fn dev_profile(rng: &mut Rng) {
+    let Some((curve, _, _, _)) = gen::curve2(rng) else { return };
+    let l = curve.length();
+    let n = rng.int(1, 12) as usize;
+    let pts: Vec<Point2> = (0..n).map(|_| { let b = curve.at_length(rng.unit() * l).unwrap().point(); let a = rng.range(0.0, 6.3); let off = *rng.pick(&[0.0, 1e-3, 0.1, 1.0]) * l.max(1e-3) * rng.unit(); Point2::new(b.x + off * a.cos(), b.y + off * a.sin()) }).collect();
+    let iv = if rng.chance(0.5) { None } else { let (a, b) = (rng.unit() * l, rng.unit() * l); Some(engeom::common::Interval::new(a.min(b), a.max(b))) };
+    let mut v = Verdict::new();
+    match guarded(|| line_surface_deviations(&curve, &pts, iv)) {
+        Err(e) => v.require(false, "profile_dev.panics", || e.clone()),
+        Ok(set) => {
+            let mut want = vec![];
+            for p in &pts {
+                let st = curve.at_closest_to_point(p);
+                let la = st.length_along();
+                // a closest station within rounding of an interval end may fall either way: such a profile is not judged
+                if let Some(i) = &iv {
+                    if (la - i.min).abs() <= 1e-9 * (1.0 + l) || (la - i.max).abs() <= 1e-9 * (1.0 + l) {
+                        return;
+                    }
+                    if la < i.min || la > i.max {
+                        continue;
+                    }
+                }
+                want.push(point_curve2_deviation(&st, p).deviation);
+            }
+            let got: Vec<f64> = set.iter().map(|d| d.deviation).collect();
+            v.require(got == want, "profile_dev.holds_the_deviation_of_every_point_in_the_interval_in_order", || format!("interval {iv:?}: {got:?} vs {want:?}"));
+            if !want.is_empty() {
+                let (mx, mn) = (want.iter().cloned().fold(f64::NEG_INFINITY, f64::max), want.iter().cloned().fold(f64::INFINITY, f64::min));
+                v.require(set.max().map(|d| d.deviation) == Some(mx) && set.min().map(|d| d.deviation) == Some(mn), "profile_dev.extremes_are_those_of_its_contents", || format!("{:?} {:?} vs {mx} {mn}", set.max().map(|d| d.deviation), set.min().map(|d| d.deviation)));
+            } else {
+                v.require(set.max().is_none() && set.min().is_none() && set.symmetrical_zone_size() == 0.0, "profile_dev.empty_has_no_extremes", || "".into());
+            }
+        }
+    }
+    emit_oracle_only("dev.profile", &Tok::new(), &Tok::new(), &v);
 }
 
 fn dev_mesh(rng: &mut Rng) {
@@ -429,6 +470,7 @@ pub fn run(rng: &mut Rng, n: usize) {
         for _ in 0..4 {
             case("dev.case", "c16.library_call_panics", || dev_set(rng));
             case("dev.case", "c16.library_call_panics", || dev_set_reloaded(rng));
+            case("dev.case", "c16.library_call_panics", || dev_profile(rng));
             case("dev.case", "c16.library_call_panics", || tolmap(rng));
             case("dev.case", "c16.library_call_panics", || cloud(rng));
         }
